@@ -99,6 +99,10 @@ private:
 public:
   ghost_variable_manager_with_fixed_naming(get_type_fn get_type)
       : m_get_type(get_type) {}
+  // The type function usually refers to the abstract value that owns
+  // this manager: it must be rebound whenever the manager is copied or
+  // moved into another abstract value.
+  void set_type_fn(get_type_fn get_type) { m_get_type = get_type; }
   ghost_variable_manager_with_fixed_naming(const ghost_var_manager_t &o) =
       default;
   ghost_variable_manager_with_fixed_naming(ghost_var_manager_t &&o) = default;
@@ -475,6 +479,8 @@ private:
 public:
   ghost_variable_manager_with_variable_naming(get_type_fn get_type)
       : m_get_type(get_type) {}
+  // See ghost_variable_manager_with_fixed_naming::set_type_fn
+  void set_type_fn(get_type_fn get_type) { m_get_type = get_type; }
   ghost_variable_manager_with_variable_naming(const ghost_var_manager_t &o) =
       default;
   ghost_variable_manager_with_variable_naming(ghost_var_manager_t &&o) =
